@@ -77,6 +77,12 @@ def _feed(args):
     mp_.controller = 0 if unmapped else ctl.number
     mc.gain = gain
     mc.quantization = quant
+    out_offset = 0
+    if seed % 3 == 2:           # (the OUT offset controller is set as well: whatever it does, delivered values stay in range and monotone)
+        try:
+            mc.out_offset = out_offset = [100, -100, 16384, -16384, 1][seed % 5]
+        except Exception:
+            out_offset = 0
     if curve is not None:
         mc.curve.values = list(curve)
     names = list(cls.controllers)
@@ -100,7 +106,7 @@ def _feed(args):
     vt = ctl.value_type
     return {"op": "feed", "t": t, "ctl": cname, "lo": vt.min, "hi": vt.max, "gain": gain, "quant": quant, "wmin": wmin, "wmax": wmax,
             "curve": "default" if curve is None else "custom", "unmapped": unmapped, "initial": initial, "rle": rle,
-            "outcome": outcome, "bad_input": bad, "others_unchanged": bool(others), "wide": bool(wide),
+            "outcome": outcome, "bad_input": bad, "others_unchanged": bool(others), "wide": bool(wide), "out_offset": out_offset,
             "kind": "range" if type(vt).__name__ == "Range" else type(vt).__name__}
 
 
@@ -154,7 +160,7 @@ def _feed_multi(args):
         others = all(val(getattr(mods[i], n)) == before[i][n] for n in before[i] if n != cname)
         out.append({"op": "feed", "t": t, "ctl": cname, "lo": vt.min, "hi": vt.max, "gain": gain, "quant": quant, "wmin": wmin, "wmax": wmax,
                     "curve": "default", "unmapped": unmapped, "initial": before[i][cname], "rle": rles[i], "outcome": outcome, "bad_input": bad,
-                    "others_unchanged": bool(others), "wide": False, "kind": "range" if type(vt).__name__ == "Range" else type(vt).__name__,
+                    "others_unchanged": bool(others), "wide": False, "out_offset": 0, "kind": "range" if type(vt).__name__ == "Range" else type(vt).__name__,
                     "fanout": "%d targets, link %d%s" % (len(targets), i, ", reloaded" if reload else "")})
     return out
 
@@ -287,6 +293,10 @@ def run(ctx):
             gain, quant, cv = 256, 32768, None
             wmin, wmax = corners[(k // 4) % 2] if c["kind"] != "compact" else (wmin, wmax)
         jobs.append((t, name, gain, quant, wmin, wmax, cv, k % 10 == 9, ctx.seed + k, False))
+    # the plain case in both orientations for every ranged controller whose range does not start at 0 (rounding at the ends)
+    for k, (t, name, c) in enumerate([x for x in ranged if x[2]["min"] != 0 and x[2]["kind"] == "range"]):
+        for wmin, wmax in corners[:2]:
+            jobs.append((t, name, rnd.choice([256, 256, 512, 1024]), 32768, wmin, wmax, None, False, ctx.seed + 1000 + 2 * k, False))
     # compact-range targets under windows wider than their span (outside the helper's domain: only the range clause is
     # judged - the library may refuse a delivery, it must never store a value outside the declared range)
     compact = [x for x in ranged if x[2]["kind"] == "compact"]
@@ -294,6 +304,11 @@ def run(ctx):
         t, name, c = compact[k % len(compact)]
         wmin, wmax = rnd.choice([(0, 32768), (32768, 0), (0, 2 * (c["max"] - c["min"])), (1000, 300)])
         jobs.append((t, name, rnd.choice([256, 256, 1024, 100]), rnd.choice([32768, 0, 7]), wmin, wmax, None, False, ctx.seed + k, True))
+    for k in range(6 if q else 30):      # compact-range targets inside their domain, with the OUT offset set (seed % 3 == 2)
+        t, name, c = compact[k % len(compact)]
+        span = c["max"] - c["min"]
+        wmin, wmax = [(0, span), (span, 0), (span // 4, span)][k % 3]
+        jobs.append((t, name, 256, 32768, wmin, wmax, None, False, 3 * (ctx.seed + k) + 2, False))
     # fan-out to 2-4 targets (distinct modules), with unmapped links at any position
     mjobs = []
     plain = [x for x in ranged if x[2]["kind"] == "range"]
